@@ -12,8 +12,8 @@
    offsets, tree reduction by _combine_fornav, _average_fornav).  Theorems with [RO] are over the reals: float32
    accumulation (accum_type / weight_type = float) is NOT covered by them; the correspondence bounds it. *)
 From Coq Require Import Reals ZArith List Lia Lra Bool QArith.
-From PR Require Import Base.Num Base.RNum Model.Grid Model.EWA Gen.GenC08
-     Proofs.Grid_real Proofs.C08_ll2cr Proofs.C08_acc Proofs.C08_dask Proofs.C08_gen.
+From PR Require Import Base.Num Base.RNum Model.Grid Model.EWA Gen.GenC08 Model.C08_run Model.C08_rungen
+     Proofs.Grid_real Proofs.C08_ll2cr Proofs.C08_acc Proofs.C08_dask Proofs.C08_gen Proofs.C08_hist.
 Import ListNotations.
 Open Scope R_scope.
 
@@ -56,16 +56,28 @@ Theorem C08_source_params_are_model : forall (a : area R),
   params_of_tuple (gen_ll2cr_params RO a) = ll2cr_params RO a.
 Proof. exact gen_params_R. Qed.
 Print Assumptions C08_source_params_are_model.
+(* ... and [gen_ll2cr_body], regenerated from the TEXT of the element loop of _ll2cr.pyx:ll2cr_static (Cython is not
+   installed: the .pyx cannot be rebuilt, but its source is read on every run), is the model's loop body for EVERY
+   arithmetic instance -- reals, binary64 and rationals alike *)
+Theorem C08_pyx_loop_body_is_model : forall {T} (OP : ops T) x y fill cw ch w h ox oy,
+  gen_ll2cr_body OP x y fill cw ch w h ox oy = ll2cr_pixel OP (mk_crp cw ch ox oy w h) fill (x, y).
+Proof. intros T OP. exact (gen_body_is_pixel OP). Qed.
+Print Assumptions C08_pyx_loop_body_is_model.
+Theorem C08_pyx_loop_is_model : forall {T} (OP : ops T) p fill pts,
+  ll2cr_static_src OP p fill pts = ll2cr_static OP p fill pts.
+Proof. intros T OP. exact (ll2cr_static_src_eq OP). Qed.
+Print Assumptions C08_pyx_loop_is_model.
+(* [ll2cr_static_src ... (params_of_tuple (gen_ll2cr_params ...))] below consists of generated code only *)
 Theorem C08_ll2cr_source_is_area_map : forall (proj : R * R -> R * R) (a : area R) (fill : R) (lonlats : list (R * R)),
   wf_area a ->
-  snd (ll2cr_static RO (params_of_tuple (gen_ll2cr_params RO a)) fill (map proj lonlats)) =
+  snd (ll2cr_static_src RO (params_of_tuple (gen_ll2cr_params RO a)) fill (map proj lonlats)) =
   map (fun ll => if Rleb (big30 RO) (fst (proj ll)) then (fill, fill)
                  else (arr_of_proj_x RO a (fst (proj ll)), arr_of_proj_y RO a (snd (proj ll)))) lonlats.
 Proof. exact ll2cr_src_is_area_map. Qed.
 Print Assumptions C08_ll2cr_source_is_area_map.
 Theorem C08_ll2cr_source_count : forall (proj : R * R -> R * R) (a : area R) (fill : R) (lonlats : list (R * R)),
   wf_area a ->
-  fst (ll2cr_static RO (params_of_tuple (gen_ll2cr_params RO a)) fill (map proj lonlats)) =
+  fst (ll2cr_static_src RO (params_of_tuple (gen_ll2cr_params RO a)) fill (map proj lonlats)) =
   Z.of_nat (length (filter (fun ll => counted_b a (proj ll)) lonlats)).
 Proof. exact ll2cr_src_count. Qed.
 Print Assumptions C08_ll2cr_source_count.
@@ -78,9 +90,7 @@ Example C08_ex_flipped_point : area_cr ex_flipped 0 (1, -3) = (/2, /2).
 Proof.
   rewrite area_cr_canonical; [| exact C08_ex_flipped_wf | pose proof big30_pos; unfold big30 in *; cbn [lit RO] in *].
   - unfold dxR, dyR, ex_flipped. cbn [xmin xmax ymin ymax width height]. f_equal; field.
-  - apply Rlt_trans with 2; [lra|]. apply Rlt_le_trans with (IZR 7105427357601002 * 1).
-    + rewrite Rmult_1_r. apply IZR_lt. lia.
-    + apply Rmult_le_compat_l; [apply IZR_le; lia|]. apply (Flocq.Core.Raux.bpow_le Flocq.Core.Zaux.radix2 0 47). lia.
+  - replace (Flocq.Core.Raux.bpow Flocq.Core.Zaux.radix2 0) with 1 by reflexivity. rewrite Rmult_1_r. apply Rlt_trans with 2; [lra|]. apply (IZR_lt 2). lia.
 Qed.
 
 (* ------------------------------------------------------------------ fornav *)
@@ -250,6 +260,60 @@ Example C08_ex_combine_value :
   fornav_cell QO false (1 # 100)%Q (1 # 100)%Q 0%Q (concat (map (fun g => concat (map snd g)) ex_groups_Q)) (2, 3)%Z
   = Some (40 # 3)%Q.
 Proof. split; vm_compute; reflexivity. Qed.
+
+(* ------------------------------------------------------------------ the resampler object: persist, histories, legacy *)
+(* [dr] = per input chunk, did ll2cr count no pixel near the grid (geometry only).  A call's chunks are CONSISTENT
+   with it when a dropped chunk is a placeholder (always true in the code: _delayed_fornav returns the placeholder
+   for a placeholder ll2cr result).  persist=True leaves the dropped chunks out of the block cache, persist=False
+   keeps them as placeholders: same cell values.  Generic in the arithmetic. *)
+Theorem C08_persist_is_transparent : forall {T} (OP : ops T) dr mwm smin rounding c chunks,
+  consistent dr chunks ->
+  snd (resample_call OP dr mwm smin rounding c None (true, chunks)) =
+  snd (resample_call OP dr mwm smin rounding c None (false, chunks)).
+Proof. intros T OP. exact (persist_is_transparent OP). Qed.
+Print Assumptions C08_persist_is_transparent.
+
+(* ANY history of resample() calls on one resampler object (each with its own persist flag and data; the cache is
+   filled by the first call only): every call returns what a fresh object returns for that data *)
+Theorem C08_history_is_stateless : forall {T} (OP : ops T) dr mwm smin rounding c calls cache,
+  match cache with Some m => valid_mask dr m | None => True end ->
+  Forall (fun call => consistent dr (snd call)) calls ->
+  run_history OP dr mwm smin rounding c cache calls = map (fun call => dask_cell OP mwm smin rounding (snd call) c) calls.
+Proof. intros T OP. exact (history_is_stateless OP). Qed.
+Print Assumptions C08_history_is_stateless.
+
+(* ll2cr chunk by chunk (dask map_blocks over _call_ll2cr; LegacyDaskEWAResampler._call_ll2cr) = ll2cr of the whole
+   swath: same columns/rows, counts add up.  The legacy resampler then runs ONE fornav on the concatenation, i.e. it is
+   the one-shot path. *)
+Theorem C08_ll2cr_chunked : forall {T} (OP : ops T) (a : area T) fill (chunks : list (list (T * T))),
+  snd (ll2cr OP a fill (concat chunks)) = concat (map (fun ch => snd (ll2cr OP a fill ch)) chunks) /\
+  fst (ll2cr OP a fill (concat chunks)) = fold_right Z.add 0%Z (map (fun ch => fst (ll2cr OP a fill ch)) chunks).
+Proof. intros T OP. exact (ll2cr_chunked OP). Qed.
+Print Assumptions C08_ll2cr_chunked.
+
+(* DaskEWAResampler._new_chunks: the input row chunk is a positive multiple of rows_per_scan *)
+Theorem C08_input_chunks_scan_aligned : forall auto_rows rps,
+  (0 < rps)%Z -> exists k, (1 <= k)%Z /\ scan_aligned_rows auto_rows rps = (k * rps)%Z.
+Proof. exact scan_aligned_spec. Qed.
+Print Assumptions C08_input_chunks_scan_aligned.
+
+(* non-trivial instance: 3 input chunks, the first dropped by ll2cr; three calls persist=True, False, True with
+   different data; every call gives the fresh-object value (40/3, 10, 20) *)
+Definition ex_dr : list bool := [true; false; false].
+Definition ex_call (v1 v2 : Q) : list (bool * list (pixel Q)) :=
+  [ (true, [mk_pixel (Some 99%Q) [((0, 0)%Z, 1%Q)]]);
+    (false, [mk_pixel (Some v1) [((0, 0)%Z, (1 # 2)%Q)]]);
+    (false, [mk_pixel (Some v2) [((0, 0)%Z, (1 # 4)%Q)]]) ].
+Example C08_ex_history_hyp : Forall (fun call => consistent ex_dr (snd call))
+                                    [(true, ex_call 10%Q 20%Q); (false, ex_call 10%Q 10%Q); (true, ex_call 20%Q 20%Q)].
+Proof.
+  repeat constructor; cbn; intros [|[|[|i]]] H; try discriminate; try reflexivity; destruct i; discriminate.
+Qed.
+Example C08_ex_history_value :
+  run_history QO ex_dr false (1 # 100)%Q 0%Q (0, 0)%Z None
+              [(true, ex_call 10%Q 20%Q); (false, ex_call 10%Q 10%Q); (true, ex_call 20%Q 20%Q)]
+  = [Some (40 # 3)%Q; Some 10%Q; Some 20%Q].
+Proof. vm_compute. reflexivity. Qed.
 
 (* ------------------------------------------------------------------ the dropped chunk (finding) *)
 (* dask_ewa._call_ll2cr replaces an input chunk by a placeholder when ll2cr counts no pixel within ONE cell of the
